@@ -226,6 +226,11 @@ async fn child_run(dir: &str, phase: &Value) -> anyhow::Result<Value> {
         })
         .unwrap_or_else(|| Ok(vec![]))?;
     let occur = Occur::collect(&all_reqs);
+    // rollover limit of FRESH raft log files (hook; 0 / absent = the product's 4096): with 43 a log file is full after
+    // 128 records, so that a short history spreads over several log files
+    if let Some(l) = phase["log_limit"].as_u64() {
+        rnacos::verif_hooks::LOG_DATA_AREA_INDEX.store(l as u16, std::sync::atomic::Ordering::SeqCst);
+    }
     let dir_path = PathBuf::from(dir);
     let first_run = !dir_path.join("index").exists();
 
@@ -499,6 +504,7 @@ impl Restart {
                 serde_json::to_vec(&json!({
                     "threshold": threshold, "reqs": ph["reqs"], "all_reqs": all_reqs,
                     "pace": case["pace"].as_bool().unwrap_or(false),
+                    "log_limit": case["log_limit"],
                     "scratch": scratch.to_string_lossy(),
                 }))?,
             )?;
